@@ -24,6 +24,7 @@ def sym_solve(rec, spec, jit):
     assume = tm.assume(S.symbols)
     sj.AMBIENT[:] = list(assume)
     sj.SIDE.clear()
+    sj.TAGGING[0] = True  # entries of value arrays become syntactically unique (see symjax.tag)
     solve, template = get_function(tm.model, "solve", jit)
     V = S.run(solve, params)
     rec.symbols = S.symbols
@@ -123,6 +124,10 @@ def replace_topdown(term, mapping):
     return rw(term)
 
 
+def is_tagged(e):
+    return isinstance(e, z3.ExprRef) and z3.is_app(e) and e.decl().name() == "vtag"
+
+
 def abstraction_maps(impl_next, ref_next, prefix):
     """inductive decomposition: once impl V_{t+1}[i] == ref V_{t+1}[i] is established for every i,
     both are replaced by the same fresh constant W_i in the period-t obligations (one Bellman step
@@ -135,8 +140,8 @@ def abstraction_maps(impl_next, ref_next, prefix):
             return None
         if not isinstance(e, z3.ExprRef) or not isinstance(r, z3.ExprRef):
             continue  # concrete entries need no abstraction
-        if e.num_args() == 0 and r.num_args() == 0:
-            continue
+        if not (is_tagged(e) and is_tagged(r)):
+            continue  # only syntactically unique (tagged) entries are abstracted
         W = z3.Real(f"{prefix}_{key}")
         mi[e.get_id()] = W
         mr[r.get_id()] = W
